@@ -3,7 +3,7 @@ from harness import dbgen as D
 from harness.props import c09
 
 RULE = ("databases with the same label text in several kinds and directions, labels with spaces/punctuation/empty flavour/extra "
-        "parts, generic and specific variants, case variants; every record's dumped label is looked up in every section with "
+        "parts, generic and specific variants, case variants, Unicode line/paragraph separators and VT/FF/FS/GS/RS/NEL inside label texts; every record's dumped label is looked up in every section with "
         "random.choice driven over every candidate index, plus near-miss texts (case change, trailing blank, generic<->specific); "
         "label-based impersonation with an explicitly passed EMPTY database while the process default is loaded must raise DatabaseError; label-based impersonate_tcp/mtu (base packets SYN / SYN+ACK also with ECE, CWR, PSH, URG, NS set) is checked to use a record of that label, kind and direction; non-trivial = >= 1 candidate")
 ASSUMPTIONS = ["random.choice is replaced by an indexable stub (the real draw is uniform over the same candidate list)"]
@@ -23,6 +23,11 @@ def generate(R, tier):
         if R.random() < 0.3:                        # label texts with blank + ';' / '#' inside: plain characters, not comments
             labels = [l + R.choice([" ;-)", " ; x", "\t;y", " #1"]) for l in labels]
             mlabels = [l + R.choice([" ; PPPoE", " ;)"]) for l in mlabels[:2]] + [R.choice(labels)]
+        if R.random() < 0.15:                       # characters Unicode (not the file reader) regards as line breaks / separators are plain label text
+            x = R.choice(["\x0b", "\x0c", "\x1c", "\x1d", "\x1e", "\x85", "\u2028", "\u2029"])
+            mid = lambda l, extra: (l[:-1] + x + extra + l[-1:]) if len(l) >= 2 and l[-1] not in " \t" and not l[0].isspace() else l
+            labels = [mid(l, R.choice(["", ";", "v", ";OS"])) for l in labels]
+            mlabels = [mid(l, R.choice(["", ";x"])) for l in mlabels[:2]] + [R.choice(labels)]
         for kind, d in secs:
             lines.append(D.sec_header(kind, d))
             for _ in range(R.randint(1, 4)):
